@@ -70,3 +70,18 @@ pub fn check_mll(case: &str) -> Result<(), String> {
     if e.is_empty() && res != empty() { return Err("empty input must give the empty list".into()); }
     Ok(())
 }
+
+// ---- parsed lists (C15): whatever parse_linked_list accepts is a well-formed list ----------------
+pub fn enum_parsed(_s: u64) -> Vec<String> {
+    let elems = ["a", "$X", "[b]", "[]", "f(a)", "1", "$_"];
+    let mut out: Vec<String> = vec!["[]".into(), "[a | $T]".into(), "[a, b | $T]".into(), "[a | $T, b]".into(), "[a | $T, b, c]".into(),
+        "[$H | $T, [x]]".into(), "[a, b, c]".into(), "[[a], [b | $T]]".into(), "[a | $T | $U]".into(), "[| $T]".into()];
+    for a in elems { for b in elems { out.push(format!("[{}, {}]", a, b)); out.push(format!("[{} | $T, {}]", a, b)); out.push(format!("[{}, {} | $T]", a, b)); } }
+    out
+}
+pub fn check_parsed(case: &str) -> Result<(), String> {
+    match parse_linked_list(case) {
+        Err(_) => Ok(()),
+        Ok(l) => if wf_list(&l) { Ok(()) } else { Err(format!("accepted, but the list is not well formed (a tail variable that is not last): {}", ser(&l))) },
+    }
+}
